@@ -220,7 +220,8 @@ def _check_euler(res, layer, case, what, cb, names, c0, f, upper, params=None):
         return cls
     if h == 0:
         cls = "upper bound already reached (h = 0)"
-    scale = max([1.0] + [abs(v) for v in upper.values() if v != float("inf")])
+    fin = [abs(v) for v in upper.values() if v != float("inf")] + [abs(v) for v in c0.values()]
+    scale = max(fin) if any(fin) else 1.0  # the concentration scale of this state (trace-level states have their own)
     bad = []
     for s in names:
         y1 = c0[s] + h * f[s]
@@ -307,6 +308,12 @@ def check_first_order(res, n, mask, p, limited, only_y0=None):
         if cb is not None:
             cls = _check_euler(res, "F", ycase, what, cb, names, c0, f, upper)
             res.outcomes["F euler closed tank: limited by %s" % cls] += 1
+            # the same state at trace level (all concentrations x 2**-50 ~ 1e-15): a first-order network is linear, so the rates
+            # and bounds scale with it and the safe step is unchanged
+            sc = 2.0 ** -50
+            c0s = {s: c0[s] * sc for s in names}
+            cls_s = _check_euler(res, "F-trace", dict(ycase, scale="2**-50"), what + " at trace level", cb, names, c0s, {s: f[s] * sc for s in names}, {s: upper[s] * sc for s in names})
+            res.outcomes["F euler closed tank at trace level: limited by %s" % cls_s] += 1
         if cb2 is not None:
             for fi, (F, kind) in enumerate(FEEDS):
                 fc = fc_of(kind, names)
